@@ -2,15 +2,13 @@ package router
 
 import "github.com/gammazero/nexus/v3/wamp"
 
+// pptOptionsToDetails copies the payload passthru options of a message to the
+// details of the message forwarded to the receiving peers. Options that are not
+// strings are ignored.
 func pptOptionsToDetails(options wamp.Dict, details wamp.Dict) {
-	details[wamp.OptPPTScheme] = options[wamp.OptPPTScheme].(string)
-	if val, ok := options[wamp.OptPPTSerializer]; ok {
-		details[wamp.OptPPTSerializer] = val.(string)
-	}
-	if val, ok := options[wamp.OptPPTCipher]; ok {
-		details[wamp.OptPPTCipher] = val.(string)
-	}
-	if val, ok := options[wamp.OptPPTKeyId]; ok {
-		details[wamp.OptPPTKeyId] = val.(string)
+	for _, opt := range []string{wamp.OptPPTScheme, wamp.OptPPTSerializer, wamp.OptPPTCipher, wamp.OptPPTKeyId} {
+		if val, ok := options[opt].(string); ok {
+			details[opt] = val
+		}
 	}
 }
